@@ -6,6 +6,10 @@ from .util import *
 
 def path_str(v):
     v = tgt(v)
+    if isinstance(v, En) and v.ty.endswith('Component'):
+        if v.var == 'Normal':
+            return path_str(v.f[0])
+        return as_strref(pystr({'RootDir': '/', 'CurDir': '.', 'ParentDir': '..'}.get(v.var, '')))
     if isinstance(v, Opaque) and v.tag in ('Path', 'PathBuf', 'OsStr', 'OsString'):
         return as_strref(v.p)
     return as_strref(v)
